@@ -134,6 +134,8 @@ def groups(tier, seed):
                                                        for (a, b_) in ((None, None), (2, None), (None, 1), (2, 2))]}
     yield {'tree': 'deep', 'layer': 'scale', 'cases': [{'roots': [['dot', a, b_, m]]} for m in (None, 'dfs')
                                                        for (a, b_) in ((None, None), (60, None), (None, 59), (30, 31))]}
+    # the deep tree again with few file descriptors to spare: both modes still return everything (a walk must not keep a directory open per level)
+    yield {'tree': 'deep', 'layer': 'scale', 'cases': [{'roots': [['dot', a, b_, m]], 'nofile': 24} for m in (None, 'bfs', 'dfs') for (a, b_) in ((None, None), (40, None))]}
     # names that are not valid UTF-8 (distinct names may print identically; rows are compared as multisets of lossy text)
     nu = {'d\udcff': D({'one': F(1), 'sub': D({'deep': F(1)})}), 'd\udcfe': D({'two': F(1)}), 'plain': D({'three': F(1)}),
           'f\udcff': F(1), 'f\udcfe': F(1), '\udcff\udcfe': D({'\udc80': F(1)})}
@@ -191,6 +193,7 @@ def groups(tier, seed):
             yield {'kind': 'symdir', 'mode': mode, 'spelling': spelling, 'layer': 'symlinks-option'}
     # a relative root whose name starts with `~` is a name, not the home directory
     yield {'kind': 'tilde-root', 'layer': 'root-names'}
+    yield {'kind': 'rx-roots', 'layer': 'regexp-roots'}
     # the root "/" explored inside a chroot jail
     for sh in core.tree_shapes(3 if tier == 'quick' else 4):
         tree = core.shape_to_tree(sh)
@@ -229,6 +232,8 @@ def single(case):
         return {k: case[k] for k in ('kind', 'mode', 'spelling', 'layer')}
     if case.get('kind') == 'tilde-root':
         return {'kind': 'tilde-root', 'layer': 'root-names', 'only': case['argv']}
+    if case.get('kind') == 'rx-roots':
+        return {'kind': 'rx-roots', 'layer': 'regexp-roots'}
     return {'tree': case['tree'], 'cases': [{k: v for k, v in case.items() if k != 'tree'}],
             'jail': case.get('jail', False)}
 
@@ -304,12 +309,9 @@ def scale_tree(name):
         t = {'d%04d' % i: D({'f': F(1)}) for i in range(3000)}
         t.update({'x%03d' % i: F(1) for i in range(300)})
         return t
-    t = cur = {}
-    for i in range(64):
-        nxt = {}
-        cur['l%02d' % i] = D(nxt)
-        cur['f%02d' % i] = F(1)
-        cur = nxt
+    t = {}
+    for i in reversed(range(64)):       # built from the innermost level outwards
+        t = {'l%02d' % i: D(t), 'f%02d' % i: F(1)}
     return t
 
 
@@ -367,7 +369,58 @@ def eval_tilde(env, group):
     return outs
 
 
+def eval_rx_roots(env, group):
+    """search roots given as regular expressions: the directories whose names match, and nothing else (no match: nothing)"""
+    holder = env.newdir('gx')
+    core.materialise(holder, {'q1': D({'sub': D({'a': F(1)}), 'o': F(1)}), 'q2': D({'sub': D({'b': F(1), 'dd': D({'c': F(1)})})}), 'xb': D({'n': F(1)}), 'b': D({'m': F(1)}),
+                              'a1': D({'k': F(1)}), 'sub': D({'cwd-only': F(1)}), 'plain': D({'p': F(1)}), 'lq': L('q1'), 'lf': L('plain/p')})
+    first = holder.split('/')[1]
+    rest = '/'.join(holder.split('/')[2:])
+    rxfirst = '/' + first[:-1] + '[' + first[-1] + ']/' + rest         # the first segment below / is the expression
+    cases = [('q.*/sub', ['q1/sub', 'q2/sub'], ''), ('q[12]', ['q1', 'q2'], ''), ('zz.*/sub', [], ''), (holder + '/zz.*/sub', [], ''), (holder + '/q.*/sub', ['q1/sub', 'q2/sub'], ''),
+             ('a.*|b', ['a1', 'b'], ''), ('b|a.*', ['a1', 'b'], ''), ('x?b', ['xb', 'b'], ''), (rxfirst + '/q[1]', ['q1'], ''), (rxfirst + '/pla.*', ['plain'], ' maxdepth 1'),
+             ('q.*/nosuch', None, ''), ('[lq].', ['q1', 'q2'], ''), ('[lq].', ['q1', 'q2', 'lq'], ' symlinks'), ('l[q]', ['lq'], ' symlinks'), ('q.*//sub/', ['q1/sub', 'q2/sub'], '')]
+    outs = []
+    try:
+        for pat, dirs_, opts in cases:
+            argv = ["path from '%s' rx%s into list" % (pat, opts)]
+            if group.get('only') is not None and argv != group['only']:
+                continue
+            o = env.run(argv, cwd=holder)
+            r = {'case': {'kind': 'rx-roots', 'argv': argv}, 'layer': 'regexp-roots', 'nt': True}
+            if dirs_ is None:       # a literal segment that does not exist below the matches: reported, nothing listed
+                ok = o.rc == 1 and not o.rows()
+                want = []
+            else:
+                want, seen = [], set()
+                for d in dirs_:
+                    real = os.path.realpath(os.path.join(holder, d))
+                    for dp, dns, fns in os.walk(real):
+                        if opts == ' maxdepth 1' and dp != real:
+                            continue
+                        for n in dns + fns:
+                            if (dp, n) not in seen:
+                                seen.add((dp, n))
+                                want.append((dp, n))
+                got = []
+                for p_ in o.rows():
+                    ap = os.path.normpath(os.path.join(holder, p_))
+                    got.append((os.path.realpath(os.path.dirname(ap)), os.path.basename(ap)))
+                ok = o.rc == 0 and not o.err and sorted(got) == sorted(want)
+            r['trans'] = len(want) + 1
+            if not ok:
+                r.update(status='viol', cls='regexp-root', sig=('rxroot',), detail=dict(o.brief(), argv=argv, expected=[os.path.relpath(os.path.join(*w), holder) for w in want][:12]))
+            else:
+                r.update(status='ok', sig=(pat, opts))
+            outs.append(r)
+    finally:
+        env.rmtree(holder)
+    return outs
+
+
 def eval_group(env, group, tier):
+    if group.get('kind') == 'rx-roots':
+        return eval_rx_roots(env, group)
     if group.get('kind') == 'symdir':
         return eval_symdir(env, group)
     if group.get('kind') == 'tilde-root':
@@ -432,7 +485,7 @@ def eval_case(env, tree, holder, troot, topdirs, case, layer, jail_tree):
         if case.get('rd') is not None:
             o = env.run(argv, cwd=cwd, preload=True, env={'FSX_READDIR': 'perm:%d' % case['rd']})
         else:
-            o = env.run(argv, cwd=cwd)
+            o = env.run(argv, cwd=cwd, nofile=case.get('nofile'))
         base = troot
     full = dict(case, tree=tree if len(tree) < 100 and 'l00' not in tree else ('wide' if len(tree) > 100 else 'deep'))
     res = {'case': full, 'layer': layer, 'trans': sum(len(e) for e in expected) + 1}
@@ -446,6 +499,11 @@ def eval_case(env, tree, holder, troot, topdirs, case, layer, jail_tree):
 
     if o.timeout:
         return viol('hang', o.brief())
+    if case.get('nofile') and o.rc == 1 and b'Too many open files' in o.err and any(m == 'dfs' for _, _, _, m in case['roots']) \
+            and core.known('C01-dfs-descriptor-per-level'):
+        # recorded finding: the depth-first walk keeps one directory open per level (the breadth-first walk of the same tree is complete)
+        res.update(status='known', cls='C01-dfs-descriptor-per-level', detail=dict(o.brief(), argv=argv, nofile=case['nofile']), sig=('known-dfs-fd',))
+        return res
     if o.rc != 0 or o.err:
         return viol('status-or-stderr', dict(o.brief(), argv=argv))
     rows = o.rows()
